@@ -3,6 +3,7 @@ pub mod analysis;
 pub mod evrec;
 pub mod exec;
 pub mod oracles_run;
+pub mod pipelines;
 pub mod report;
 pub mod rng;
 pub mod spec;
